@@ -51,7 +51,7 @@ func c35UserMsg(b []byte) []byte {
 
 func TestC35(t *testing.T) {
 	r := evid.Start(t, "C35", "exploration")
-	nBubbles := r.N(260, 8000)
+	nBubbles := r.N(1600, 100000)
 	perBubble := r.N(8, 8)
 	kinds := []string{"alive5", "alive5", "alive-old", "alive-old", "failed", "left", "leaving", "moved"}
 
@@ -372,12 +372,12 @@ func TestC35(t *testing.T) {
 		}
 	})
 	for _, k := range []string{"replies_with_relays_observed", "replies_relayed_exactly_k_with_more_eligible", "replies_gate_small_cluster_with_eligible_peers", "replies_relayed_with_ineligible_members_present"} {
-		if r.Counter(k) < int64(r.N(100, 2000)) {
+		if r.Counter(k) < int64(r.N(300, 2000)) {
 			r.Inconclusive(fmt.Sprintf("%s = %d: too few observations", k, r.Counter(k)))
 		}
 	}
 	r.Finish("member lists of 1-4 alive puppets plus 0-6 fake members (alive with protocol max 5, alive with protocol max 2-4, failed, leaving, left, moved to a new address; churn between queries) around one real node; queries with relay factor 0..members+2 (and 200/255) from a puppet; acks and Respond replies; every packet leaving the node parsed. Asserted: relay copies <= k, distinct peers, only to alive members with protocol max >= 5 other than the node (ground truth = the node's own Members() at quiescence), none when members < k+1, envelope addressed to the origin and identical to the direct reply. Non-trivial = relay factor > 0; distinct by (k, members, eligible, ineligible, reply kind, copies seen)",
-		r.N(250, 1500),
+		r.N(600, 1500),
 		"relay selection is random with bounded probing: only upper bounds and eligibility are asserted, never 'exactly k'",
 		"eligibility is judged against the node's own member list (status, protocol max) read at quiescence immediately before the query")
 }
